@@ -32,7 +32,7 @@ LEVEL_NOTE = ('Assumed (unverified) callee contracts: device.resolve (returns id
               'route() -> None. Domain: integer/real CIP element types, tags without a configured forced error code for writes. '
               'Object.request attribute services are only in the bounded tier.')
 TECHNIQUE = 'contracts on Logix.reply_elements / Logix.request / Attribute + table obligations, VCs from the real AST, z3/cvc5; bounded histories as stand-in'
-TRUSTED = ['assumed callee contracts: resolve, lookup, route, produce (see functions_under_contract[].note)',
+TRUSTED = ['assumed callee contracts: resolve, lookup, route, produce (see functions_under_contract[].note)', 'status_after_store: AST-decided ordering condition (sufficient, syntactic)', 'producer contracts shared with C01 carry its assumptions',
            'T2 struct.pack ranges of B b <H <h <I <i <Q <q']
 ASSUMPTIONS = ['requests are for this Logix object (route() returns None); STRUCT/STRING tags excluded',
                'tags have no configured forced error code when written (a test facility of the simulator)']
@@ -138,14 +138,14 @@ def replay_status_order(model, obligation):
 def contracts(repo):
     items = [LC.reply_elements_spec(ensures=False, ctx=c) for c in ('read_tag', 'read_frag', 'write_tag', 'write_frag')]
     items += LC.request_specs()
-    items.append(Custom('well_formed', well_formed, replay=replay_cell,
+    items.append(Custom('well_formed', well_formed, replay=replay_cell, targets=[('server/enip/logix.py', 'Logix.request')],
                         note='allowed_tag_types read from the AST of Logix.request; one obligation per (tag type, accepted request type)'))
     for sp in AC.specs('vector'):
         if '__setitem__' in sp.name or '_validate_key' in sp.name:
             items.append(sp)
     items.append(set_attribute_single_spec())
     items.append(get_attribute_single_spec())
-    items.append(Custom('status_after_store', status_after_store, replay=replay_status_order,
+    items.append(Custom('status_after_store', status_after_store, replay=replay_status_order, targets=[('server/enip/logix.py', 'Logix.request')],
                         note='ordering condition on the AST of Logix.request: failure status before the range computation, no success status before the store'))
     # an accepted string stays readable: every length the wire can carry (SSTRING 0..255, STRING 0..65535) is a length the producer encodes (contracts of C01)
     from . import C01 as _C01
